@@ -200,7 +200,22 @@ def check_written_file(data, call, disk, path, trace, stats=None):
     return out
 
 
-def do_call(data, call, disk, prefix):
+class _NoRecorder:
+    """Stand-in for warnings.catch_warnings in client threads: the warnings machinery is process-global state, which
+    the harness only touches from the main thread (the API's own use of it is part of what is simulated)."""
+
+    def __enter__(self):
+        return []
+
+    def __exit__(self, *exc):
+        return False
+
+
+def _discard_warning(*args, **kwargs):
+    return None
+
+
+def do_call(data, call, disk, prefix, record=True):
     """One dump / write_input of `data`.  Returns (result|None, exc|None, warnings list)."""
     import iodata
 
@@ -209,8 +224,9 @@ def do_call(data, call, disk, prefix):
     plan = seams.WritePlan.from_faults(call.get("faults"))
     disk.plans[out] = plan
     res = exc = None
-    with warnings.catch_warnings(record=True) as wl:
-        warnings.simplefilter("always")
+    with (warnings.catch_warnings(record=True) if record else _NoRecorder()) as wl:
+        if record:
+            warnings.simplefilter("always")
         try:
             if fmt in ("gaussian", "orca"):
                 kw = copy.deepcopy(call.get("input_kwargs") or {})
@@ -297,7 +313,7 @@ def run_threads(trace, rng=None, stats=None):
 
     def make(i):
         def body():
-            results[i] = do_call(data, calls[i], disk, f"t{i}/")
+            results[i] = do_call(data, calls[i], disk, f"t{i}/", record=False)
         return body
 
     def observer():
@@ -308,13 +324,42 @@ def run_threads(trace, rng=None, stats=None):
             baton.seam_point("observe")
 
     fns = [make(i) for i in range(len(calls))] + [observer]
+    # every thread's solo run on a fresh copy first: reference bytes, and the step budget of the threaded run
+    import iodata  # noqa: F401
+
+    solos = []
+    solo_steps = 0
+    for i, call in enumerate(calls):
+        solo_disk = seams.SimDisk(log_events=False)
+        solo = gen.build(trace["obj"])
+        with seams.Installed(solo_disk), sched.Steps() as sst:
+            _res, sexc, _wl, spath, _pl = do_call(solo, {**call, "faults": None}, solo_disk, f"t{i}/")
+        solos.append((sexc, solo_disk.get(spath)))
+        solo_steps += sst.steps
+    if _GUARD is not None and _GUARD.changed():
+        _GUARD.restore()
+    budget = 4 * solo_steps + 4000 * trace.get("observations", 6) + 50_000
+    # the application's warning configuration (set from the main thread, before the clients start)
+    wstate = (warnings.filters[:], warnings.showwarning, getattr(warnings, "_showwarnmsg_impl", None))
+    warnings.resetwarnings()
+    warnings.simplefilter(trace.get("wfilter") or "always")
+    warnings.showwarning = _discard_warning
     try:
-        with seams.Installed(disk), sched.Steps(sched=baton) as st:
+        with seams.Installed(disk), sched.Steps(budget=budget, sched=baton) as st:
             done = baton.run(fns)
     except sched.SchedulerStall as exc:
         return [_v("stall_under_interleaving", str(exc), trace, "stall")], baton, 0
+    finally:
+        warnings.filters[:] = wstate[0]
+        warnings.showwarning = wstate[1]
+        if wstate[2] is not None:
+            warnings._showwarnmsg_impl = wstate[2]
+        warnings._filters_mutated()
     for c in done:
-        if c.error is not None:
+        if isinstance(c.error, sched.StepBudgetExceeded):
+            out.append(_v("no_termination_under_interleaving", f"client {c.idx} ({calls[c.idx]['fmt'] if c.idx < len(calls) else 'observer'}) had not returned when the run "
+                          f"had taken {budget} steps (the calls take {solo_steps} steps alone): {c.error}", trace, "budget"))
+        elif c.error is not None:
             out.append(_v("client_died", f"client {c.idx}: {type(c.error).__name__}: {c.error}", trace, type(c.error).__name__))
     if observed:
         out.append(_v("argument_mutated", f"observer saw the shared object modified while dumps were in flight: {observed[0][1]}", trace, "observer"))
@@ -323,18 +368,12 @@ def run_threads(trace, rng=None, stats=None):
         d = canon.diff(snap0, snap)
         out.append(_v("argument_mutated", f"shared object changed by concurrent dumps: {d[:3]}", trace, f"threads/{d[0].split(':')[0][:60] if d else ''}"))
     # each thread's bytes equal the solo run on a fresh copy
-    import iodata  # noqa: F401
-
     for i, call in enumerate(calls):
         r = results[i]
         if r is None:
             continue
-        solo_disk = seams.SimDisk(log_events=False)
-        solo = gen.build(trace["obj"])
-        with seams.Installed(solo_disk):
-            _res, sexc, _wl, spath, _pl = do_call(solo, {**call, "faults": None}, solo_disk, f"t{i}/")
+        sexc, b = solos[i]
         a = disk.get(r[3])
-        b = solo_disk.get(spath)
         ea = type(r[1]).__name__ if r[1] is not None else None
         eb = type(sexc).__name__ if sexc is not None else None
         if ea != eb or (ea is None and a != b):
@@ -403,8 +442,10 @@ def gen_trace(rng):
     n = rng.randint(2, 4)
     calls = [call() for _ in range(n)]
     r = rng.random()
-    policy = (["random", rng.choice([0.002, 0.01, 0.05])] if r < 0.4 else
-              ["newline", rng.choice([0.002, 0.01]), rng.choice([0.02, 0.1, 0.3])] if r < 0.7 else ["pct", rng.choice([1, 2, 3])])
+    policy = (["random", rng.choice([0.002, 0.01, 0.05])] if r < 0.3 else
+              ["newline", rng.choice([0.002, 0.01]), rng.choice([0.02, 0.1, 0.3])] if r < 0.5 else
+              # pre-empt right after process-global state was touched (module-level names, the warnings machinery)
+              ["gstore", rng.choice([0.002, 0.01]), rng.choice([0.25, 0.5])] if r < 0.8 else ["pct", rng.choice([1, 2, 3])])
     return {"mode": "threads", "obj": recipe, "calls": calls, "policy": policy, "schedule": None,
             "observations": rng.randint(2, 12), "horizon": 6000}
 
